@@ -5,10 +5,12 @@ Each model area contributes a handler `List String → Option String` (none = no
 -/
 import PrqlModel.Drv.Util
 import PrqlModel.Drv.Target
+import PrqlModel.Drv.Text
 namespace Drv
 
 def handlers : List (List String → Option String) := [
-  Drv.Target.handle
+  Drv.Target.handle,
+  Drv.Text.handle
 ]
 
 def handle (fields : List String) : String :=
